@@ -48,7 +48,7 @@ PROPERTY = "C16"
 LEVEL = "exploration"
 RULE = ("case kinds: code (one per 16-bit code, exhaustive: description relation + decode + reset "
         "classification between two errors), interleave (every sequence up to length 4 quick / 6 thorough over "
-        "{error A, error B, reset 0x0000, reset 0x00FF, near-reset 0x0100}, on a bare consumer and through the bus, "
+        "{error A, error B, reset 0x0000, reset 0x00FF, near-reset 0x0100}, alternately on a bare consumer and through the bus, "
         "callbacks registered before/in the middle), roundtrip (producer send/reset for all registers x data "
         "lengths 0..5 x argument forms), history (Hypothesis, drawn op by op and - cheaper, so in larger number - "
         "expanded from a drawn 64-bit seed by a splitmix64 stream: 1..40 (thorough 80) ops on two consumers: raw 8-byte frames with "
@@ -67,7 +67,7 @@ ASSUMPTIONS = [
     "that only reports 'about to wait' (observation only); frames are delivered while the waiter is known to be "
     "blocked, so only 'returned the wrong entry / nothing although a matching frame arrived / something although "
     "none arrived' is decided, never scheduling",
-    "wait() expecting a hit uses a 5 s time-out (a return of None within 2.5 s is 'gave up before the time-out'); "
+    "wait() expecting a hit uses a 20 s time-out (a return of None within 10 s is 'gave up before the time-out'); "
     "wait() expecting nothing uses 10 ms",
     "description relation: a code inside a CiA 301 class must carry that class's keyword; a code outside every "
     "class may have an empty description or one of a class sharing its high nibble (0x01xx..0x0Fxx: must not be "
@@ -77,7 +77,7 @@ BUDGET = {"quick": 40, "thorough": 330}
 
 KNOWN_WAIT_DEFECT = ("wait: the first matching frame is followed by another frame logged before the waiter "
                      "wakes up (genuine defect: wait() inspects only log[-1])")
-HIT_TIMEOUT = 5.0
+HIT_TIMEOUT = 20.0
 MISS_TIMEOUT = 0.01
 GUARD = 30.0
 
@@ -320,6 +320,7 @@ def _run_ops(rig, ops, D):
             if kind == "frame":
                 code, reg, data = op["code"], op["reg"], bytes(op["data"])
                 wire = ref_encode(code, reg, data)
+                assert ref_decode(wire) == (code, reg, data)      # harness self-check
                 ts = rig.raw_frame(k, wire, op["ts"], op.get("buf", "bytes"))
                 rig.models[k].frame((code, reg, data, ts))
                 tag = f"step {n} (frame {wire.hex()} for node {rig.ids[k]})"
@@ -416,7 +417,7 @@ def _run_history(case):
     rig = Rig(case["rig"], case["ids"])
     feat = _run_ops(rig, case["ops"], D)
     if case["kind"] == "interleave":
-        klass = f"interleave/{case['rig']}/len{sum(1 for o in case['ops'] if o['op'] == 'frame')}"
+        klass = f"interleave/len{sum(1 for o in case['ops'] if o['op'] == 'frame')}"
     elif case["kind"] == "roundtrip":
         op = case["ops"][-1]
         klass = f"roundtrip/{op['op']}/{op['form']}/data{len(op['data'])}"
@@ -490,8 +491,9 @@ def _run_wait(case):
     from canopen.emcy import EmcyConsumer
     filt = case["filter"]
     expect_i, defect = _wait_plan(case)
-    if defect:
-        return Outcome(excluded=KNOWN_WAIT_DEFECT)
+    # `defect` marks the class "the first matching frame is followed by another frame logged
+    # before the waiter wakes up": it used to be excluded (wait() only looked at log[-1]);
+    # repaired in /repo by commit 90d8476, so it is generated and judged like every other case.
     D = []
     q = queue.Queue()
     if case.get("rig") == "bus":
@@ -887,14 +889,39 @@ def wait_case(draw):
             "form": draw(st.sampled_from(["pos", "kw", "timeout_only"]))}
 
 
+def _showcase():
+    yield {"kind": "code", "code": 0x8130}
+    yield expand_history(4, 14)
+    yield next(c for c in wait_enum() if c["pre"] and len(c["feed"]) == 3 and c["filter"] == 0x2001)
+    yield next(c for c in roundtrips() if len(c["ops"][-1]["data"]) == 3)
+    yield next(c for i, c in enumerate(interleavings(4)) if i == 15)
+
+
+def _spread(cases, nshards):
+    """ctx.enumerate hands item i to shard i % nshards; pad so that shard 0 gets every case."""
+    for c in cases:
+        yield c
+        for _ in range(nshards - 1):
+            yield None
+
+
 def search(ctx):
     thorough = ctx.tier == "thorough"
+    if ctx.shard == 0:
+        # one case of every kind first (they recur below): makes the evidence samples span the families
+        ctx.enumerate(_spread(_showcase(), ctx.nshards))
     ctx.enumerate(interleavings(6 if thorough else 4),
                   "every error/reset/near-reset interleaving up to length %d" % (6 if thorough else 4))
     ctx.enumerate(wait_enum(), "wait: 3 pre-histories x 12 feed shapes x 4 filters")
     ctx.enumerate(roundtrips(), "producer round trip: every register x data length 0..5 x send/reset")
     ctx.enumerate(({"kind": "code", "code": c} for c in range(0x10000)),
                   "all 65536 codes: description, decode, reset classification")
-    ctx.hypothesis(history(60 if thorough else 30), 4000 if thorough else 500, salt=1)
-    ctx.hypothesis(expanded_histories(80 if thorough else 40), 60000 if thorough else 5000, salt=3)
-    ctx.hypothesis(wait_case(), 1500 if thorough else 250, salt=2)
+    # the bulk (seed-expanded histories, cheapest per case) comes last and in chunks, so that a
+    # budget that runs out (loaded machine) cuts only there and no generation is done for nothing
+    ctx.hypothesis(history(60 if thorough else 30), 2500 if thorough else 500, salt=1)
+    if not ctx.over_budget():
+        ctx.hypothesis(wait_case(), 1000 if thorough else 250, salt=2)
+    for chunk in range(8 if thorough else 2):
+        if ctx.over_budget():
+            break
+        ctx.hypothesis(expanded_histories(80 if thorough else 40), 5000 if thorough else 2500, salt=10 + chunk)
